@@ -194,8 +194,18 @@ def run_ctor(case):
                                                                                                   for j, (d, l) in enumerate(zip(dims, labels))])))
             neg.append(("scalar label in dict + dims on dim %d" % i, lambda i=i, sc=sc: da.DimArray(vals, axes={d: (sc if j == i else core.label_array(l))
                                                                                                                for j, (d, l) in enumerate(zip(dims, labels))}, dims=list(dims))))
+    if nd >= 1:
+        # data of another dimensionality than the axes: 0-d, one dimension fewer, one more (also of length 1)
+        axforms = [("pairs", lambda: dict(axes=[(d, list(l)) for d, l in zip(dims, labels)])), ("Axis objects", lambda: dict(axes=[da.Axis(x.copy(), d) for d, x in zip(dims, larr)])),
+                   ("label lists + dims", lambda: dict(axes=[list(l) for l in labels], dims=list(dims))), ("dict + dims", lambda: dict(axes={d: list(l) for d, l in zip(dims, labels)}, dims=list(dims)))]
+        others = [("python scalar", 5.0), ("numpy scalar", np.float64(5.0)), ("0-d array", np.array(5.0)), ("leading length-1 dimension added", vals[None]), ("trailing length-1 dimension added", vals[..., None])]
+        if nd >= 2 and vals.size:
+            others.append(("first dimension dropped", vals[0]))
+        for oname, other in others:
+            for aname, kw in axforms:
+                neg.append(("data of another dimensionality (%s) with %s" % (oname, aname), lambda other=other, kw=kw: da.DimArray(other, **kw())))
     if nd >= 2 and vals.T.shape != vals.shape:
-        neg.append(("transposed values", lambda: da.DimArray(vals.T, axes=[x.copy() for x in larr], dims=list(dims))))
+        neg.append(("transposed values",lambda: da.DimArray(vals.T, axes=[x.copy() for x in larr], dims=list(dims))))
     if nd >= 2:
         dd = list(dims)
         dd[1] = dd[0]
